@@ -140,7 +140,7 @@ Definition set_err (s : state) (h : host) (e : err) : state :=
      fin_res := fin_res s; fin_exc := fin_exc s; spec_armed := spec_armed s; spec_left := spec_left s;
      conn_ks := conn_ks s |}.
 
-(* _set_final_exception / _set_final_result: no first-wins guard in the source (C14); both cancel the timer *)
+(* raw setters; the model uses fail_with / finish_with below (first outcome wins) *)
 Definition set_exc (s : state) (x : fexc) : state :=
   {| plan := plan s; consumed := consumed s; pools := pools s; msg_cl := msg_cl s; retries := retries s;
      nconsult := nconsult s; errors := errors s; queue := queue s; attempts := attempts s;
@@ -152,6 +152,17 @@ Definition set_res (s : state) (r : fres) : state :=
      nconsult := nconsult s; errors := errors s; queue := queue s; attempts := attempts s;
      fin_res := Some r; fin_exc := fin_exc s; spec_armed := false; spec_left := spec_left s;
      conn_ks := conn_ks s |}.
+
+(* cluster.py (first-outcome-wins guard in _set_final_result/_set_final_exception): the timer is cancelled in any case, the
+   outcome is stored only if none has been delivered yet *)
+Definition cancel_timer (s : state) : state :=
+  {| plan := plan s; consumed := consumed s; pools := pools s; msg_cl := msg_cl s; retries := retries s;
+     nconsult := nconsult s; errors := errors s; queue := queue s; attempts := attempts s;
+     fin_res := fin_res s; fin_exc := fin_exc s; spec_armed := false; spec_left := spec_left s;
+     conn_ks := conn_ks s |}.
+
+Definition fail_with (s : state) (x : fexc) : state := if completed s then cancel_timer s else set_exc s x.
+Definition finish_with (s : state) (r : fres) : state := if completed s then cancel_timer s else set_res s r.
 
 Definition push_task (s : state) (t : task) : state :=
   {| plan := plan s; consumed := consumed s; pools := pools s; msg_cl := msg_cl s; retries := retries s;
@@ -191,7 +202,7 @@ Definition query (s : state) (h : host) (m : mkind) (c : cause) : state * list e
 (* ---------------------------------------------------------------- send_request *)
 Fixpoint walk (s : state) (p : list host) (error_no_hosts : bool) : state * list event :=
   match p with
-  | [] => ((if error_no_hosts then set_exc s (XNoHost (errors s)) else s), [])
+  | [] => ((if error_no_hosts then fail_with s (XNoHost (errors s)) else s), [])
   | h :: rest =>
       let '(s1, ev, ok) := query (take_host s h rest) h (MOrig (msg_cl s)) CPlan in
       if ok then (s1, ev)
@@ -217,8 +228,8 @@ Definition handle_decision (s : state) (h : host) (k : ekind) (tag : Z) (d : dec
   let s1 := match d with
             | DRetry => bump_retry s dcl (TRetry true h)
             | DNextHost => bump_retry s dcl (TRetry false h)
-            | DRethrow => set_exc s (XResp k tag)
-            | DIgnore => set_res s FNone
+            | DRethrow => fail_with s (XResp k tag)
+            | DIgnore => finish_with s FNone
             end in
   (set_err s1 h (EResp k tag), [ErrSet h (EResp k tag)]).
 
@@ -238,13 +249,13 @@ Definition uses_ks (c : config) : bool := uses_keyspace_flag (pv c).
 Definition unprep_go (c : config) (s : state) (h : host) (ps : pstmt) : state * list event :=
   let '(_, qs, ks) := ps in
   if negb (uses_ks c) && is_some ks && negb (opt_eqb (conn_ks s) ks)
-  then (set_exc s XKsMismatch, [])
+  then (fail_with s XKsMismatch, [])
   else (push_task s (TReprepare h qs (if uses_ks c then ks else None)), []).
 
 Definition unprepared (c : config) (s : state) (h : host) (id tag : Z) : state * list event :=
   match fut_ps c with
   | Some (pid, pqs, pks) =>
-      if negb (pid =? id) then (set_exc s XAssert, [])         (* assert query_id == response.info *)
+      if negb (pid =? id) then (fail_with s XAssert, [])         (* assert query_id == response.info *)
       else match lookup (known c) id with
            | Some ps => unprep_go c s h ps
            | None => unprep_go c s h (pid, pqs, pks)
@@ -252,24 +263,24 @@ Definition unprepared (c : config) (s : state) (h : host) (id tag : Z) : state *
   | None =>
       match lookup (known c) id with
       | Some ps => unprep_go c s h ps
-      | None => (set_exc s XAttr, [])      (* log.error(... query_id.encode('hex')) raises on bytes *)
+      | None => (fail_with s XAttr, [])      (* log.error(... query_id.encode('hex')) raises on bytes *)
       end
   end.
 
 Definition set_result (c : config) (s : state) (h : host) (r : resp) : state * list event :=
   match r with
-  | RRows => (set_res s FRows, [])
-  | RVoid => (set_res s FNone, [])
-  | RPrepared _ => (set_res s FMsg, [])
+  | RRows => (finish_with s FRows, [])
+  | RVoid => (finish_with s FNone, [])
+  | RPrepared _ => (finish_with s FMsg, [])
   | RRetryable k tag =>
       let clarg := if request_error_kind k then msg_cl s else None in
       let '(d, dcl) := pol c (nconsult s) k tag (retries s) clarg in
       let '(s1, ev) := handle_decision (tick_consult s) h k tag d dcl in
       (s1, Consult (nconsult s) h k tag (retries s) clarg d dcl :: ev)
   | RUnprepared id tag => unprepared c s h id tag
-  | ROtherError tag => (set_exc s (XOtherError tag), [])
-  | ROtherExc tag => (set_exc s (XOtherExc tag), [])
-  | RJunk => (set_exc s XUnexpected, [])
+  | ROtherError tag => (fail_with s (XOtherError tag), [])
+  | ROtherExc tag => (fail_with s (XOtherExc tag), [])
+  | RJunk => (fail_with s XUnexpected, [])
   end.
 
 (* ---------------------------------------------------------------- executor tasks *)
@@ -285,19 +296,19 @@ Definition after_prepare (c : config) (s : state) (h : host) (r : resp) : state 
   | RPrepared id =>
       match fut_ps c with
       | Some (pid, _, _) =>
-          if negb (pid =? id) then (set_exc s XIdMismatch, [])          (* repaired source: returns here *)
+          if negb (pid =? id) then (fail_with s XIdMismatch, [])          (* repaired source: returns here *)
           else query_or_next s h (MOrig (msg_cl s)) CResend
       | None => query_or_next s h (MOrig (msg_cl s)) CResend
       end
-  | RRows | RVoid => (set_exc s XUnexpected, [])
+  | RRows | RVoid => (fail_with s XUnexpected, [])
   | RRetryable k tag =>
       if is_conn_kind k
       then let s1 := set_err s h (EResp k tag) in
            let '(s2, ev) := send_request s1 true in (s2, ErrSet h (EResp k tag) :: ev)
-      else (set_exc s (XResp k tag), [])
-  | RUnprepared _ tag => (set_exc s (XUnprepared tag), [])
-  | ROtherError tag => (set_exc s (XOtherError tag), [])
-  | ROtherExc _ | RJunk => (set_exc s XUnexpected, [])
+      else (fail_with s (XResp k tag), [])
+  | RUnprepared _ tag => (fail_with s (XUnprepared tag), [])
+  | ROtherError tag => (fail_with s (XOtherError tag), [])
+  | ROtherExc _ | RJunk => (fail_with s XUnexpected, [])
   end.
 
 Definition run_task (c : config) (s : state) (t : task) : state * list event :=
